@@ -162,14 +162,14 @@ def generate(rng, tier):
         w = W[ver]
         m = (1 << w) - 1
         pts = sorted(set(p for (bv, bf, bl) in blocks if bv == ver for p in (bf - 1, bf, bl, bl + 1) if 0 <= p <= m))
-        for _ in range(250 * mult):
+        for _ in range(800 * mult):
             a, b = rng.choice(pts), rng.choice(pts)
             if rng.random() < 0.5:
                 i = rng.randrange(len(pts))
                 a, b = pts[i], pts[min(i + rng.randrange(0, 3), len(pts) - 1)]
             cases += _spans_as_cases(rng, ver, min(a, b), max(a, b), 'join')
         # random
-        for _ in range(250 * mult):
+        for _ in range(800 * mult):
             r = rng.random()
             if r < 0.4:
                 cases.append(_case(('A', ver, rand_value(rng, w), rng.choice(['obj', 'str'])), 'random/A'))
